@@ -72,8 +72,8 @@ Print Assumptions C07_list_unchanged.
 (* List and Count as specified by the snapshot semantics (sorted by key, exactly the visible keys of the range):
    the result is determined by the specification and is the same on stores that read the same from R on *)
 Theorem C07_list_count_unchanged : forall R A B lo hi R' l1 l2,
-  veq R A B -> R <= R' -> list_spec A lo hi R' l1 -> list_spec B lo hi R' l2 -> l1 = l2 /\ length l1 = length l2.
-Proof. exact list_unchanged. Qed.
+  veq R A B -> R <= R' -> list_spec A lo hi R' l1 -> list_spec B lo hi R' l2 -> l1 = l2.
+Proof. exact list_spec_unchanged. Qed.
 Print Assumptions C07_list_count_unchanged.
 
 Theorem C07_no_reappear_no_vanish : forall R A B R' k,
